@@ -25,21 +25,24 @@ StageNo(s) == CHOOSE i \in 1..Len(Stages) : Stages[i] = s
 
 Op(id, where) == [id |-> id, where |-> where]
 Operators == {
-  Op("not-ini", "read"), Op("text-before-header", "read"), Op("unclosed-header", "read"), Op("no-delimiter", "read"),
+  Op("not-text", "read"), Op("not-ini", "read"), Op("text-before-header", "read"), Op("unclosed-header", "read"), Op("no-delimiter", "read"),
   Op("placeholder-missing", "interpolate"), Op("placeholder-missing-section", "interpolate"), Op("placeholder-syntax", "interpolate"), Op("placeholder-circular", "interpolate"),
-  Op("pair-key-no-dash", "dup-check"), Op("pair-key-two-dashes", "dup-check"), Op("adp-key-no-dash", "dup-check"),
+  Op("edit-placeholder-syntax", "read"),        \* a malformed place-holder arriving through --override-item / --add-item / overrides=
+  Op("pair-key-no-dash", "dup-check"), Op("pair-key-two-dashes", "dup-check"), Op("adp-key-no-dash", "dup-check"), Op("pair-key-empty-species", "dup-check"),
   Op("target-unknown", "tabulation"), Op("target-empty", "tabulation"), Op("target-wrong-case", "tabulation"),
   Op("grid-all-three", "tabulation"), Op("grid-step-alone", "tabulation"), Op("grid-zero-nr", "tabulation"), Op("grid-negative-cutoff", "tabulation"),
   Op("grid-nonnumeric-nr", "tabulation"), Op("grid-float-nr", "tabulation"), Op("grid-nonnumeric-cutoff", "tabulation"),
   Op("rho-all-three", "tabulation"), Op("rho-step-alone", "tabulation"), Op("rho-nonnumeric", "tabulation"),
   Op("grid-one-row", "tabulation"), Op("rho-one-row", "tabulation"), Op("dlpoly-four-rows", "tabulation"), Op("dlpoly-not-multiple-of-four", "tabulation"), Op("dlpoly-default-rows", "tabulation"),
-  Op("cutoff-nan", "tabulation"), Op("cutoff-inf", "tabulation"),
+  Op("cutoff-nan", "tabulation"), Op("cutoff-inf", "tabulation"), Op("grid-step-underflow", "tabulation"), Op("grid-overflow", "tabulation"),
   Op("table-no-data", "registry"), Op("table-x-and-xy", "registry"), Op("table-length-mismatch", "registry"), Op("table-odd-xy", "registry"),
   Op("table-nonnumeric", "registry"), Op("table-unknown-interpolation", "registry"), Op("table-empty-interpolation", "registry"),
   Op("table-only-x", "registry"), Op("table-only-y", "registry"), Op("table-three-points", "registry"), Op("table-not-increasing", "registry"),
-  Op("table-repeated-x", "registry"), Op("table-empty-data", "registry"),
+  Op("table-repeated-x", "registry"), Op("table-empty-data", "registry"), Op("table-not-finite", "registry"), Op("table-empty-name", "registry"),
+  Op("table-named-like-library-function", "registry"),
   Op("form-bad-signature", "registry"), Op("form-dotted-name", "registry"), Op("form-no-parameters", "registry"), Op("form-reserved-parameter", "registry"), Op("form-parameters-differ-in-case", "registry"), Op("form-numeric-parameter", "registry"),
-  Op("form-same-label-other-arity", "registry"),
+  Op("form-same-label-other-arity", "registry"), Op("form-parameter-named-like-a-form", "registry"), Op("form-label-reserved", "registry"),
+  Op("form-signature-trailing-text", "registry"),
   Op("missing-pair-section", "pair-builder"), Op("unknown-form", "pair-builder"), Op("unknown-modifier", "pair-builder"), Op("nested-unknown-form", "pair-builder"),
   Op("too-few-parameters", "pair-builder"), Op("too-many-parameters", "pair-builder"), Op("nonnumeric-parameter", "pair-builder"), Op("empty-value", "pair-builder"),
   Op("empty-sum", "pair-builder"), Op("unbalanced-parenthesis", "pair-builder"), Op("bad-range-marker", "pair-builder"), Op("less-than-marker", "pair-builder"),
@@ -57,12 +60,12 @@ Operators == {
   Op("formula-unparsable", "evaluate"), Op("formula-undefined-symbol", "evaluate"), Op("formula-call-wrong-arity", "evaluate") }
 
 \* what the unrepaired tree does with an operator when the noticing stage is reached
-Escapes == {"not-ini", "text-before-header", "unclosed-header", "no-delimiter", "placeholder-missing", "placeholder-missing-section", "placeholder-syntax",
+Escapes == {"not-text", "edit-placeholder-syntax", "grid-step-underflow", "form-parameter-named-like-a-form", "form-label-reserved", "table-named-like-library-function", "not-ini", "text-before-header", "unclosed-header", "no-delimiter", "placeholder-missing", "placeholder-missing-section", "placeholder-syntax",
             "pair-key-no-dash", "pair-key-two-dashes", "adp-key-no-dash", "grid-one-row", "rho-one-row", "dlpoly-four-rows",
             "table-only-x", "table-only-y", "table-three-points", "table-not-increasing", "table-repeated-x", "table-empty-data", "table-with-parameters",
             "form-no-parameters", "form-numeric-parameter", "exp-spline-with-parameters", "buck4-spline-without-rmin", "spline-middle-is-modifier",
             "trans-second-is-modifier", "fs-plain-keys", "fs-double-arrow", "species-nonnumeric-number", "species-nonnumeric-mass", "species-float-number"}
-Accepted == {"cutoff-nan", "cutoff-inf", "buck4-spline-rmin-below-detach", "buck4-spline-rmin-above-attach", "buck4-form-rmin-outside"}
+Accepted == {"pair-key-empty-species", "grid-overflow", "table-not-finite", "table-empty-name", "form-signature-trailing-text", "cutoff-nan", "cutoff-inf", "buck4-spline-rmin-below-detach", "buck4-spline-rmin-above-attach", "buck4-form-rmin-outside"}
 
 VARIABLES op, stage, outcome, fileOpened, table
 vars == <<op, stage, outcome, fileOpened, table>>
